@@ -240,7 +240,7 @@ def record_run(sc):
         def wrapped(**kw):
             orig(**kw)
             tapes.setdefault(key, []).append(f"tape {key} clear {ten_s(m.spike) if is_neuron else '1:0'}")
-        m.clear = wrapped
+        m.__dict__["clear"] = wrapped      # inferno.Module.__setattr__ routes class attributes to descriptors
 
     for k, m in zip(cn, conns):
         m.register_forward_hook(hook("c:" + k))
